@@ -180,6 +180,31 @@ theorem initial_last_index_fast :
     (- RNum.ofNat (Fast.polyLen / 2) : ρ) = Formulas.fastOut_reset_last_index :=
   ⟨rfl, rfl, rfl, rfl⟩
 
+/-- `set_chunk_size`: the rejection test of the two sinc types is the regenerated one (the polynomial and FFT types keep
+the trait default `ChunkSizeNotAdjustable`; the translator fails the run if any of them starts overriding it) -/
+theorem setChunk_is_generated (s : AState ρ σ) (n : Nat) :
+    s.setChunk n =
+      (match s.kind with
+       | .fastIn | .fastOut => (s, .error .chunkNotAdjustable)
+       | .sincIn =>
+         if Formulas.sincIn_chunk_rejected (ρ := ρ) n s.maxChunk then (s, .error (.invalidChunk s.maxChunk n))
+         else ({ s with chunk := n }, .ok ())
+       | .sincOut =>
+         if Formulas.sincOut_chunk_rejected (ρ := ρ) n s.maxChunk then (s, .error (.invalidChunk s.maxChunk n))
+         else ({ s with chunk := n, needed := neededSinc s.lastIndex n s.ratio s.target s.L }, .ok ())) := by
+  unfold AState.setChunk Formulas.sincIn_chunk_rejected Formulas.sincOut_chunk_rejected
+  cases s.kind <;> simp
+
+/-- `set_resample_ratio_relative` is `set_resample_ratio` at the regenerated `resample_ratio_original * rel_ratio` (all four
+asynchronous types; the shape of the absolute setter's body — range test, `if !ramp { resample_ratio = new }`,
+`target_ratio = new`, size update, error payload — is checked on the text by the translator) -/
+theorem setRatioRelative_is_generated (s : AState ρ σ) (rel : ρ) (ramp : Bool) :
+    s.setRatioRelative rel ramp = s.setRatio (Formulas.fastIn_rel_new_ratio s.orig rel) ramp ∧
+    Formulas.fastIn_rel_new_ratio s.orig rel = Formulas.fastOut_rel_new_ratio s.orig rel ∧
+    Formulas.fastIn_rel_new_ratio s.orig rel = Formulas.sincIn_rel_new_ratio s.orig rel ∧
+    Formulas.fastIn_rel_new_ratio s.orig rel = Formulas.sincOut_rel_new_ratio s.orig rel :=
+  ⟨rfl, rfl, rfl, rfl⟩
+
 end loops
 
 /-! ### the synchronous (FFT) resamplers: block sizing and frame bookkeeping (`DivArith.ofNum ρ` = the `as f32` divisions
@@ -297,6 +322,12 @@ theorem fft_formulas_read_the_expected_fields :
     ("sincOut_loop_last_index", ["idx", "current_buffer_fill"]),
     ("sincOut_reset_last_index", ["sinc_len"]),
     ("sincOut_new_last_index", ["sinc_len"]),
+    ("sincIn_chunk_rejected", ["chunksize", "max_chunk_size"]),
+    ("sincOut_chunk_rejected", ["chunksize", "max_chunk_size"]),
+    ("fastIn_rel_new_ratio", ["resample_ratio_original", "rel_ratio"]),
+    ("fastOut_rel_new_ratio", ["resample_ratio_original", "rel_ratio"]),
+    ("sincIn_rel_new_ratio", ["resample_ratio_original", "rel_ratio"]),
+    ("sincOut_rel_new_ratio", ["resample_ratio_original", "rel_ratio"]),
     ("fftIo_new_gcd", ["sample_rate_input", "sample_rate_output"]),
     ("fftIo_new_min_chunk_in", ["sample_rate_input", "gcd"]),
     ("fftIo_new_fft_chunks", ["chunk_size_in", "min_chunk_in"]),
